@@ -174,6 +174,7 @@ def monitor_case(ctx, case, labels, cost, do_brute):
 def run(ctx):
     rng = np.random.default_rng(ctx.seed)
     ctx.proof_layer(allowed_axioms=R_AX, coq_deps=["Corr/RunViterbi"])
+    core.note_drift(ctx, ANCHORS)
     n = ctx.budget(1500, 6000)
     tmax, kmax = (11, 4) if not ctx.thorough else (40, 10)
     cases = gen_cases(rng, n, tmax, kmax)
